@@ -549,19 +549,17 @@ def rule_j(model, rep):
                     rep.hold(R, s, "conversion inside try/except ValueError")
                     continue
                 worst = 0
+                from pv.lang import group_dfa
                 for (cn, rn), node in regexes.items():
                     try:
                         pat, flags = fold_regex(model, unit, node, cls=(un, cn) if cn else None)
+                        d = group_dfa(pat, flags, g)
                     except Exception:
                         continue
-                    shape = T.group_shape(pat, flags, g)
-                    if shape is None:
+                    if d is None:
                         continue
-                    reps, _ = shape
-                    for lo, hi in reps:
-                        worst = max(worst, int(hi) if str(hi).isdigit() else 10 ** 9)
-                    if not reps:
-                        worst = max(worst, 10 ** 9)
+                    ml = d.max_length()
+                    worst = max(worst, 10 ** 9 if ml is None else ml)
                 rep.check(0 < worst <= LIMIT, R, s, f"group <{g}> admits up to {'unbounded' if worst >= 10 ** 9 else worst} digits; int() takes at most {LIMIT}",
                           "a digit group converted with int() outside try/except ValueError is bounded below the interpreter's integer-string limit",
                           witness="SHA256Hasher().identify('$5$rounds=' + '1' * 5000 + '$abc$' + 'a' * 43) raises ValueError instead of answering False")
